@@ -749,6 +749,11 @@ class Inliner:
         if set(bound) != allp:
             raise NotInlinable("unbound parameter")
         stored = _assigned_names(h)
+        # `nonlocal x` in a helper nested in the caller itself: x is the caller's own variable, not a local of the helper
+        nl_ = {nm for n in _scope_nodes(h) if isinstance(n, ast.Nonlocal) for nm in n.names}
+        if nl_ and any(n is h for n in ast.walk(caller)) and nl_ <= (_assigned_names(caller) | {x.arg for x in caller.args.posonlyargs + caller.args.args + caller.args.kwonlyargs}):
+            stored = stored - nl_
+            self._nonlocal_ok = (h, nl_)
         caller_names = _all_names(caller)
         subst: Dict[str, ast.AST] = {}
         prelude: List[ast.stmt] = []
@@ -855,7 +860,10 @@ class Inliner:
         return subst, rename, prelude, free & caller_locals
 
     def body_for(self, h: ast.AST, subst, rename) -> List[ast.stmt]:
+        ok_nl = getattr(self, "_nonlocal_ok", (None, set()))
         for n in _scope_nodes(h):
+            if isinstance(n, ast.Nonlocal) and ok_nl[0] is h and set(n.names) <= ok_nl[1]:
+                continue
             if isinstance(n, (ast.Global, ast.Nonlocal)):
                 raise NotInlinable("global / nonlocal")
         for n in ast.walk(h):
@@ -863,7 +871,7 @@ class Inliner:
                 inner_bound = {x.arg for x in n.args.posonlyargs + n.args.args + n.args.kwonlyargs}
                 if inner_bound & (set(subst) | set(rename)):
                     raise NotInlinable("nested scope rebinds a renamed name")
-        body = [copy.deepcopy(s) for s in _strip_doc(h.body)]
+        body = [copy.deepcopy(s) for s in _strip_doc(h.body) if not (isinstance(s, ast.Nonlocal) and ok_nl[0] is h)]
         tr = _Rename(subst, rename)
         return [ast.fix_missing_locations(tr.visit(s)) for s in body]
 
